@@ -76,6 +76,14 @@ fn json_enc<T: serde::Serialize>(c: Codec, v: &T) -> R<Vec<u8>> {
     }
 }
 
+/// The harness-owned third serde format (simtypes::vtree): any type that implements the serde traits offers it.
+fn tree_dec<T: serde::de::DeserializeOwned>(c: Codec, b: &[u8]) -> R<T> {
+    simtypes::vtree::from_wire(b, c.tree_mode().ok_or("facade: not a tree codec")?).map_err(e)
+}
+fn tree_enc<T: serde::Serialize>(c: Codec, v: &T) -> R<Vec<u8>> {
+    simtypes::vtree::to_wire(v, c.tree_mode().ok_or("facade: not a tree codec")?).map_err(e)
+}
+
 /// Encode / decode one data type in every codec it offers.
 trait Wire: Sized {
     fn dec(c: Codec, b: &[u8]) -> R<Self>;
@@ -94,6 +102,7 @@ macro_rules! wire_std {
                     Codec::BytesBox => Self::try_from(b.to_vec().into_boxed_slice()).map_err(e),
                     Codec::Bare => serde_bare::from_slice(b).map_err(e),
                     Codec::Json | Codec::JsonReader | Codec::JsonValue => json_dec(c, b),
+                    Codec::TreeBin | Codec::TreeBinLend | Codec::TreeHr | Codec::TreeBinMap => tree_dec(c, b),
                     _ => Err("facade: codec not offered by this type".into()),
                 }
             }
@@ -107,6 +116,7 @@ macro_rules! wire_std {
                     }
                     Codec::Bare => serde_bare::to_vec(self).map_err(e),
                     Codec::Json | Codec::JsonReader | Codec::JsonValue => json_enc(c, self),
+                    Codec::TreeBin | Codec::TreeBinLend | Codec::TreeHr | Codec::TreeBinMap => tree_enc(c, self),
                     _ => Err("facade: codec not offered by this type".into()),
                 }
             }
@@ -128,6 +138,7 @@ macro_rules! wire_scalar {
                     Codec::BytesBox => Self::try_from(b.to_vec().into_boxed_slice()).map_err(e),
                     Codec::Bare => serde_bare::from_slice(b).map_err(e),
                     Codec::Json | Codec::JsonReader | Codec::JsonValue => json_dec(c, b),
+                    Codec::TreeBin | Codec::TreeBinLend | Codec::TreeHr | Codec::TreeBinMap => tree_dec(c, b),
                     Codec::Be => {
                         let a: [u8; 32] = b.try_into().map_err(|_| "bad length".to_string())?;
                         Option::from(Self::from_be_bytes(&a)).ok_or_else(|| "from_be_bytes: none".to_string())
@@ -144,6 +155,7 @@ macro_rules! wire_scalar {
                     Codec::BytesVec => Ok(Vec::from(self.clone())),
                     Codec::Bare => serde_bare::to_vec(self).map_err(e),
                     Codec::Json | Codec::JsonReader | Codec::JsonValue => json_enc(c, self),
+                    Codec::TreeBin | Codec::TreeBinLend | Codec::TreeHr | Codec::TreeBinMap => tree_enc(c, self),
                     Codec::Be => Ok(self.to_be_bytes().to_vec()),
                     Codec::Le => Ok(self.to_le_bytes().to_vec()),
                 }
@@ -192,6 +204,7 @@ macro_rules! wire_plain {
                     Codec::BytesBox => Self::try_from(b.to_vec().into_boxed_slice()).map_err(e),
                     Codec::Bare => serde_bare::from_slice(b).map_err(e),
                     Codec::Json | Codec::JsonReader | Codec::JsonValue => json_dec(c, b),
+                    Codec::TreeBin | Codec::TreeBinLend | Codec::TreeHr | Codec::TreeBinMap => tree_dec(c, b),
                     _ => Err("facade: codec not offered by this type".into()),
                 }
             }
@@ -201,6 +214,7 @@ macro_rules! wire_plain {
                     Codec::BytesVec => Ok(Vec::from(self.clone())),
                     Codec::Bare => serde_bare::to_vec(self).map_err(e),
                     Codec::Json | Codec::JsonReader | Codec::JsonValue => json_enc(c, self),
+                    Codec::TreeBin | Codec::TreeBinLend | Codec::TreeHr | Codec::TreeBinMap => tree_enc(c, self),
                     _ => Err("facade: codec not offered by this type".into()),
                 }
             }
@@ -222,6 +236,7 @@ impl Wire for SecretKeyEnum {
             Codec::BytesBox => Self::try_from(b.to_vec().into_boxed_slice()).map_err(e),
             Codec::Bare => serde_bare::from_slice(b).map_err(e),
             Codec::Json | Codec::JsonReader | Codec::JsonValue => json_dec(c, b),
+                    Codec::TreeBin | Codec::TreeBinLend | Codec::TreeHr | Codec::TreeBinMap => tree_dec(c, b),
             Codec::Be => Option::from(Self::from_be_bytes(b)).ok_or_else(|| "from_be_bytes: none".to_string()),
             Codec::Le => Option::from(Self::from_le_bytes(b)).ok_or_else(|| "from_le_bytes: none".to_string()),
         }
@@ -232,6 +247,7 @@ impl Wire for SecretKeyEnum {
             Codec::BytesVec => Ok(Vec::from(self.clone())),
             Codec::Bare => serde_bare::to_vec(self).map_err(e),
             Codec::Json | Codec::JsonReader | Codec::JsonValue => json_enc(c, self),
+                    Codec::TreeBin | Codec::TreeBinLend | Codec::TreeHr | Codec::TreeBinMap => tree_enc(c, self),
             Codec::Be => Ok(self.to_be_bytes()),
             Codec::Le => Ok(self.to_le_bytes()),
         }
@@ -252,6 +268,7 @@ impl Wire for SignatureSchemes {
             },
             Codec::Bare => serde_bare::from_slice(b).map_err(e),
             Codec::Json | Codec::JsonReader | Codec::JsonValue => json_dec(c, b),
+                    Codec::TreeBin | Codec::TreeBinLend | Codec::TreeHr | Codec::TreeBinMap => tree_dec(c, b),
             _ => Err("facade: codec not offered by this type".into()),
         }
     }
@@ -260,6 +277,7 @@ impl Wire for SignatureSchemes {
             Codec::Bytes => Ok(vec![*self as u8]),
             Codec::Bare => serde_bare::to_vec(self).map_err(e),
             Codec::Json | Codec::JsonReader | Codec::JsonValue => json_enc(c, self),
+                    Codec::TreeBin | Codec::TreeBinLend | Codec::TreeHr | Codec::TreeBinMap => tree_enc(c, self),
             _ => Err("facade: codec not offered by this type".into()),
         }
     }
@@ -280,6 +298,7 @@ impl Wire for Bls12381 {
             },
             Codec::Bare => serde_bare::from_slice(b).map_err(e),
             Codec::Json | Codec::JsonReader | Codec::JsonValue => json_dec(c, b),
+                    Codec::TreeBin | Codec::TreeBinLend | Codec::TreeHr | Codec::TreeBinMap => tree_dec(c, b),
             _ => Err("facade: codec not offered by this type".into()),
         }
     }
@@ -288,6 +307,7 @@ impl Wire for Bls12381 {
             Codec::Bytes => Ok(vec![u8::from(self)]),
             Codec::Bare => serde_bare::to_vec(self).map_err(e),
             Codec::Json | Codec::JsonReader | Codec::JsonValue => json_enc(c, self),
+                    Codec::TreeBin | Codec::TreeBinLend | Codec::TreeHr | Codec::TreeBinMap => tree_enc(c, self),
             _ => Err("facade: codec not offered by this type".into()),
         }
     }
@@ -540,8 +560,8 @@ fn do_eq<T: Wire + PartialEq>(ca: Codec, a: &[u8], cb: Codec, b: &[u8]) -> R<Vec
 fn do_exercise<T: Wire>(ci: Codec, b: &[u8]) -> R<Vec<Vec<u8>>> {
     let v = T::dec(ci, b)?;
     v.exercise();
-    for c in Codec::ALL {
-        let _ = v.enc(c);
+    for c in Codec::ALL.iter().chain(Codec::JSON_FRONT_ENDS.iter()).chain(Codec::TREE_FORMATS.iter()) {
+        let _ = v.enc(*c);
     }
     Ok(vec![])
 }
